@@ -27,6 +27,10 @@ type Mut struct {
 	V string `json:"v"`
 	C string `json:"c"`
 	N int    `json:"n"` // put: value padded to n bytes (segment cycling)
+	// imp: the transfer also carries a lease token; Fill further keys f<ID>-000.. travel in the same Import call
+	Lease bool   `json:"lease"`
+	Fill  int    `json:"fill"`
+	ID    string `json:"id"`
 }
 
 type History struct {
@@ -67,7 +71,19 @@ func apply(kv *aof.DiskKV, m Mut) string {
 	case "rem":
 		err = kv.PrefixRemove(ctx, []byte(m.K), []byte(m.C))
 	case "imp":
-		err = kv.Import(ctx, [][]byte{[]byte(m.K)}, []*protocol.KVTransfer{{SimpleValue: []byte(m.V), PrefixChildren: [][]byte{[]byte(m.C)}}})
+		tr := &protocol.KVTransfer{SimpleValue: []byte(m.V)}
+		if m.C != "" {
+			tr.PrefixChildren = [][]byte{[]byte(m.C)}
+		}
+		if m.Lease {
+			tr.LeaseToken = 4242
+		}
+		keys, vals := [][]byte{[]byte(m.K)}, []*protocol.KVTransfer{tr}
+		for j := 0; j < m.Fill; j++ { // further keys of the same Import call (one acknowledged mutation)
+			keys = append(keys, []byte(fmt.Sprintf("f%s-%03d", m.ID, j)))
+			vals = append(vals, &protocol.KVTransfer{SimpleValue: []byte("1")})
+		}
+		err = kv.Import(ctx, keys, vals)
 	case "rmk":
 		err = kv.RemoveKeys(ctx, [][]byte{[]byte(m.K)})
 	}
@@ -99,7 +115,15 @@ func project(kv *aof.DiskKV, keys []string) map[string]any {
 		sort.Strings(l)
 		kids[k] = l
 	}
-	return map[string]any{"simple": simple, "kids": kids}
+	fill := 0 // keys brought by the filler part of imports
+	if ks, err := kv.ListKeys(ctx, []byte("f")); err == nil {
+		for _, k := range ks {
+			if k.GetType() == protocol.KeyComposite_SIMPLE {
+				fill++
+			}
+		}
+	}
+	return map[string]any{"simple": simple, "kids": kids, "fill": fill}
 }
 
 func main() {
